@@ -123,6 +123,8 @@ func baseSeed(tier string) uint64 {
 }
 
 // scratch builds the instrumented copy and the workers; returns the directory.
+var needNoYield bool
+
 func scratch() (string, func()) {
 	dir, err := os.MkdirTemp(tmpRoot(), "vsim-")
 	if err != nil {
@@ -130,6 +132,9 @@ func scratch() (string, func()) {
 	}
 	cleanup := func() { os.RemoveAll(dir) }
 	cmd := exec.Command(filepath.Join(verifDir, "mkscratch.sh"), dir)
+	if needNoYield {
+		cmd.Env = append(os.Environ(), "VSIM_NOYIELD=1")
+	}
 	cmd.Stdout = os.Stderr
 	cmd.Stderr = os.Stderr
 	if err := cmd.Run(); err != nil {
@@ -169,6 +174,10 @@ func runShard(dir string, spec propSpec, prop string, seed uint64, from, to int,
 	if spec.race {
 		bin = filepath.Join(dir, "bin", "worker-race")
 	}
+	return runShardBin(bin, dir, spec, prop, seed, from, to, tier, budget, k, extra...)
+}
+
+func runShardBin(bin, dir string, spec propSpec, prop string, seed uint64, from, to int, tier string, budget time.Duration, k int, extra ...string) shardResult {
 	out := filepath.Join(dir, fmt.Sprintf("shard-%d.jsonl", k))
 	args := []string{"-engine", spec.engine, "-prop", prop, "-seed", fmt.Sprint(seed), "-from", fmt.Sprint(from), "-to", fmt.Sprint(to), "-tier", tier,
 		"-sites", filepath.Join(dir, "sites.json"), "-budget", budget.String(), "-o", out}
@@ -239,10 +248,10 @@ func loadKnown() []knownFinding {
 // matchKnown returns the listed finding (status known) that explains f, if any.
 func matchKnown(known []knownFinding, prop string, f *failure) *knownFinding {
 	var out struct {
-		Class     string   `json:"class"`
-		Races     []struct{ A, B string } `json:"races"`
-		HistFuncs []string `json:"history_funcs"`
-		Funcs     []string `json:"rare_funcs"`
+		Class      string                  `json:"class"`
+		Races      []struct{ A, B string } `json:"races"`
+		HistFuncs  []string                `json:"history_funcs"`
+		Funcs      []string                `json:"rare_funcs"`
 		Violations []struct {
 			Kind string `json:"kind"`
 			What string `json:"what"`
@@ -323,9 +332,9 @@ func matchKnown(known []knownFinding, prop string, f *failure) *knownFinding {
 
 func failKey(f *failure) string {
 	var out struct {
-		Class string `json:"class"`
-		Races []struct{ A, B string } `json:"races"`
-		What  string `json:"what"`
+		Class      string                  `json:"class"`
+		Races      []struct{ A, B string } `json:"races"`
+		What       string                  `json:"what"`
 		Violations []struct {
 			Kind string `json:"kind"`
 			What string `json:"what"`
@@ -356,6 +365,7 @@ func check(prop, tier string) int {
 	}
 	start := time.Now()
 	seed := baseSeed(tier)
+	needNoYield = prop == "C20"
 	dir, cleanup := scratch()
 	defer cleanup()
 	os.MkdirAll(filepath.Join(dir, "logs"), 0o755)
@@ -521,7 +531,8 @@ func minimiseAndConfirm(dir string, spec propSpec, prop string, f *failure, know
 	eng := f.Engine
 	if eng == "alloc" {
 		path = filepath.Join(verifDir, "replays", fmt.Sprintf("%s-%d-%d.json", prop, f.Seed, f.Index))
-		os.WriteFile(path, b, 0o644)
+		bb, _ := json.MarshalIndent(map[string]any{"property": prop, "engine": eng, "index": f.Index, "seed": f.Seed, "outcome": f.Outcome, "scenario": f.Scenario}, "", " ")
+		os.WriteFile(path, bb, 0o644)
 		return path, reproduces(dir, spec, path), true
 	}
 	bin := filepath.Join(dir, "bin", "worker")
@@ -592,7 +603,7 @@ func reproduces(dir string, spec propSpec, path string) bool {
 		return false
 	}
 	var head struct {
-		Engine string `json:"engine"`
+		Engine   string `json:"engine"`
 		Property string `json:"property"`
 	}
 	json.Unmarshal(b, &head)
@@ -600,6 +611,9 @@ func reproduces(dir string, spec propSpec, path string) bool {
 	race := head.Engine == "conc"
 	if race {
 		bin = filepath.Join(dir, "bin", "worker-race")
+	}
+	if head.Engine == "alloc" {
+		bin = filepath.Join(dir, "bin", "worker-ny")
 	}
 	rout := filepath.Join(dir, "known-replay.jsonl")
 	cmd := exec.Command(bin, "-engine", head.Engine, "-prop", head.Property, "-sites", filepath.Join(dir, "sites.json"), "-replay", path, "-o", rout)
@@ -626,6 +640,7 @@ func replay(path string) int {
 		Property string `json:"property"`
 	}
 	json.Unmarshal(b, &head)
+	needNoYield = head.Engine == "alloc"
 	dir, cleanup := scratch()
 	defer cleanup()
 	os.MkdirAll(filepath.Join(dir, "logs"), 0o755)
@@ -633,6 +648,9 @@ func replay(path string) int {
 	race := head.Engine == "conc"
 	if race {
 		bin = filepath.Join(dir, "bin", "worker-race")
+	}
+	if head.Engine == "alloc" {
+		bin = filepath.Join(dir, "bin", "worker-ny")
 	}
 	rout := filepath.Join(dir, "replay.jsonl")
 	cmd := exec.Command(bin, "-engine", head.Engine, "-prop", head.Property, "-sites", filepath.Join(dir, "sites.json"), "-replay", path, "-o", rout)
@@ -741,18 +759,18 @@ func writeEvidence(prop, tier string, seed uint64, sums []map[string]any, start 
 		runWall = 1
 	}
 	cov := map[string]any{
-		"evaluations":          runs,
-		"distinct_nontrivial":  len(distinct),
-		"samples":              samples,
-		"simulated_runs_per_hour": int(float64(runs) / runWall * 3600),
-		"seeds_per_hour":          int(float64(runs) / runWall * 3600),
-		"worker_processes":     nsh,
-		"build_seconds":        buildS,
-		"failures_by_class":    mergeCounts(sums, "failures"),
-		"strategies_covered":   mergeCounts(sums, "strategies"),
-		"knob_usage":           mergeCounts(sums, "knobs"),
-		"probes":               mergeCounts(sums, "probes"),
-		"known_findings_observed": knownSeen,
+		"evaluations":                runs,
+		"distinct_nontrivial":        len(distinct),
+		"samples":                    samples,
+		"simulated_runs_per_hour":    int(float64(runs) / runWall * 3600),
+		"seeds_per_hour":             int(float64(runs) / runWall * 3600),
+		"worker_processes":           nsh,
+		"build_seconds":              buildS,
+		"failures_by_class":          mergeCounts(sums, "failures"),
+		"strategies_covered":         mergeCounts(sums, "strategies"),
+		"knob_usage":                 mergeCounts(sums, "knobs"),
+		"probes":                     mergeCounts(sums, "probes"),
+		"known_findings_observed":    knownSeen,
 		"deferred_to_other_property": deferred,
 		"components": map[string]any{
 			"real": []string{"every coregex package (instrumented copy of /repo's working tree, source-identical except inserted simrt.Yield calls and the pool type)", "github.com/coregx/ahocorasick", "assembly kernels (atomic steps)", "sync/atomic", "Go race detector (C06)"},
